@@ -131,11 +131,11 @@ func orStr2(port string) string {
 }
 
 type reqPools struct {
-	allowed []string
-	near    []string
+	allowed  []string
+	near     []string
 	patterns []string // the configured origin patterns, verbatim (a pattern with a wildcard is not an origin)
-	methods []string // as listed (normalised)
-	names   []string // lower-case listed header names
+	methods  []string // as listed (normalised)
+	names    []string // lower-case listed header names
 }
 
 // unifold replaces one k/K, i/I or s/S of s by the Kelvin sign, the dotted
